@@ -7,9 +7,12 @@
      effective_oid   the renaming step: no OID given -> the IMPORTS clauses of the current module
                      are searched for the name; one clause with that name lends its OID, a second
                      clause with the name after an OID was found is ETOOMANYREFS (None)
-     lookup_c        the loop over asn->modules: OID given -> the first module whose own OID is
+     lookup_oid      the loop over asn->modules, OID given -> the first module whose own OID is
                      equal ("Match! Even if name doesn't"; a module without OID or with another OID
-                     is skipped "even if name is the same"); no OID -> first module of that name
+                     is skipped "even if name is the same")
+     lookup_name     the same loop, no OID -> the whole list is walked: the one module of that name;
+                     a second module of the name is "Ambiguous reference" / ETOOMANYREFS
+     lookup_c        the loop (both branches)
      lookup_full     both steps
      accepted        what asn1f_fix_module__phase_1 lets through: two modules that both carry an
                      OID carry different ones; two modules of the same name both carry an OID
@@ -34,11 +37,29 @@ Definition oid_match (o : oid) (m : lmod) : bool :=
   match m_oid m with Some y => oid_eqb o y | None => false end.
 Definition name_match (n : nat) (m : lmod) : bool := Nat.eqb n (m_name m).
 
-(* the predicate of the C's loop body *)
-Definition pick (n : nat) (o : option oid) (m : lmod) : bool :=
-  match o with Some x => oid_match x m | None => name_match n m end.
+Inductive lres := LAmbiguous | LNotFound | LFound (m : lmod).
 
-Definition lookup_c (ms : list lmod) (n : nat) (o : option oid) : option lmod := find (pick n o) ms.
+(* OID given: first module carrying it *)
+Definition lookup_oid (ms : list lmod) (o : oid) : option lmod := find (oid_match o) ms.
+
+(* no OID: [acc] is the module of that name seen so far (`by_name` in the C) *)
+Fixpoint lookup_name (ms : list lmod) (n : nat) (acc : option lmod) : lres :=
+  match ms with
+  | [] => match acc with Some m => LFound m | None => LNotFound end
+  | m :: r =>
+      if name_match n m then
+        match acc with
+        | Some _ => LAmbiguous                (* "Ambiguous reference: %s matches several modules" *)
+        | None => lookup_name r n (Some m)
+        end
+      else lookup_name r n acc
+  end.
+
+Definition lookup_c (ms : list lmod) (n : nat) (o : option oid) : lres :=
+  match o with
+  | Some x => match lookup_oid ms x with Some m => LFound m | None => LNotFound end
+  | None => lookup_name ms n None
+  end.
 
 (* IMPORTS clauses of the current module: FROM name, optional OID *)
 Definition import := (nat * option oid)%type.
@@ -58,12 +79,10 @@ Fixpoint rename (imps : list import) (n : nat) (acc : option oid) : option (opti
 Definition effective_oid (imps : list import) (n : nat) (o : option oid) : option (option oid) :=
   match o with Some _ => Some o | None => rename imps n None end.
 
-Inductive lres := LAmbiguous | LNotFound | LFound (m : lmod).
-
 Definition lookup_full (imps : list import) (ms : list lmod) (n : nat) (o : option oid) : lres :=
   match effective_oid imps n o with
   | None => LAmbiguous
-  | Some o' => match lookup_c ms n o' with None => LNotFound | Some m => LFound m end
+  | Some o' => lookup_c ms n o'
   end.
 
 (* the lenient variant *)
@@ -75,8 +94,6 @@ Definition lookup_lenient (ms : list lmod) (n : nat) (o : option oid) : option l
 (* what phase 1 of the fixer accepts *)
 Definition oids_distinct (ms : list lmod) : Prop :=
   forall a b x, In a ms -> In b ms -> m_oid a = Some x -> m_oid b = Some x -> a = b.
-Definition names_distinct (ms : list lmod) : Prop :=
-  forall a b, In a ms -> In b ms -> m_name a = m_name b -> a = b.
 (* executable form used by the front end *)
 Fixpoint accepted_b (ms : list lmod) : bool :=
   match ms with
@@ -125,51 +142,94 @@ Proof.
 Qed.
 
 (* 1. an OID is given: the result does not depend on the order of the module list *)
-Theorem lookup_oid_order_independent : forall ms ms' n o,
+Theorem lookup_oid_order_independent : forall ms ms' o,
   oids_distinct ms -> Permutation ms ms' ->
-  lookup_c ms n (Some o) = lookup_c ms' n (Some o).
+  lookup_oid ms o = lookup_oid ms' o.
 Proof.
-  intros ms ms' n o D P. unfold lookup_c. apply find_perm_unique; [exact P|].
-  intros a b Ia Ib Pa Pb. simpl in Pa, Pb. apply oid_match_iff in Pa. apply oid_match_iff in Pb.
+  intros ms ms' o D P. unfold lookup_oid. apply find_perm_unique; [exact P|].
+  intros a b Ia Ib Pa Pb. apply oid_match_iff in Pa. apply oid_match_iff in Pb.
   apply (D a b o); assumption.
 Qed.
 
 (* 2. an OID is given: the module found carries that OID (never a module picked by its name), and
       if some module carries the OID it is the one found, whatever the name asked for *)
-Theorem lookup_oid_by_oid_only : forall ms n o,
-  (forall m, lookup_c ms n (Some o) = Some m -> In m ms /\ m_oid m = Some o) /\
-  (forall m, oids_distinct ms -> In m ms -> m_oid m = Some o -> lookup_c ms n (Some o) = Some m).
+Theorem lookup_oid_by_oid_only : forall ms o,
+  (forall m, lookup_oid ms o = Some m -> In m ms /\ m_oid m = Some o) /\
+  (forall m, oids_distinct ms -> In m ms -> m_oid m = Some o -> lookup_oid ms o = Some m).
 Proof.
-  intros ms n o. split.
-  - intros m H. unfold lookup_c in H. apply find_some in H. destruct H as [I Pm]. split; [exact I|].
-    simpl in Pm. apply oid_match_iff. exact Pm.
-  - intros m D I Hm. unfold lookup_c. destruct (find (pick n (Some o)) ms) as [a|] eqn:E.
-    + apply find_some in E. destruct E as [Ia Pa]. simpl in Pa. apply oid_match_iff in Pa.
+  intros ms o. split.
+  - intros m H. unfold lookup_oid in H. apply find_some in H. destruct H as [I Pm]. split; [exact I|].
+    apply oid_match_iff. exact Pm.
+  - intros m D I Hm. unfold lookup_oid. destruct (find (oid_match o) ms) as [a|] eqn:E.
+    + apply find_some in E. destruct E as [Ia Pa]. apply oid_match_iff in Pa.
       f_equal. apply (D a m o); assumption.
-    + pose proof (find_none _ _ E m I) as N. simpl in N.
+    + pose proof (find_none _ _ E m I) as N.
       assert (T : oid_match o m = true) by (apply oid_match_iff; exact Hm). rewrite T in N. discriminate.
 Qed.
 
-(* 3. no OID: order independent when the names are distinct *)
-Theorem lookup_name_order_independent : forall ms ms' n,
-  names_distinct ms -> Permutation ms ms' ->
-  lookup_c ms n None = lookup_c ms' n None.
+(* 3. no OID: the answer is a function of the modules of that name, not of where they stand *)
+Definition name_result (acc : option lmod) (f : list lmod) : lres :=
+  match acc, f with
+  | None, [] => LNotFound
+  | None, [m] => LFound m
+  | None, _ :: _ :: _ => LAmbiguous
+  | Some a, [] => LFound a
+  | Some _, _ :: _ => LAmbiguous
+  end.
+
+Lemma lookup_name_filter : forall ms n acc,
+  lookup_name ms n acc = name_result acc (filter (name_match n) ms).
 Proof.
-  intros ms ms' n D P. unfold lookup_c. apply find_perm_unique; [exact P|].
-  intros a b Ia Ib Pa Pb. simpl in Pa, Pb. unfold name_match in Pa, Pb.
-  apply Nat.eqb_eq in Pa. apply Nat.eqb_eq in Pb. apply D; try assumption. congruence.
+  induction ms as [|m r IH]; intros n acc.
+  - destruct acc; reflexivity.
+  - simpl. destruct (name_match n m) eqn:E.
+    + destruct acc as [a|]; [reflexivity|]. rewrite IH. simpl.
+      destruct (filter (name_match n) r) as [|x t]; reflexivity.
+    + apply IH.
+Qed.
+
+Lemma filter_perm : forall (A : Type) (p : A -> bool) (l l' : list A),
+  Permutation l l' -> Permutation (filter p l) (filter p l').
+Proof.
+  intros A p l l' P. induction P as [|x l l' P IH|x y l|l l1 l2 P1 IH1 P2 IH2].
+  - apply perm_nil.
+  - simpl. destruct (p x); [apply perm_skip|]; exact IH.
+  - simpl. destruct (p x); destruct (p y); try apply perm_swap; apply Permutation_refl.
+  - apply Permutation_trans with (l' := filter p l1); assumption.
+Qed.
+
+Lemma name_result_perm : forall f f', Permutation f f' -> name_result None f = name_result None f'.
+Proof.
+  intros f f' P. destruct f as [|a [|b t]].
+  - apply Permutation_nil in P. subst. reflexivity.
+  - apply Permutation_length_1_inv in P. subst. reflexivity.
+  - pose proof (Permutation_length P) as L. destruct f' as [|a' [|b' t']]; simpl in L; try discriminate. reflexivity.
+Qed.
+
+Theorem lookup_name_order_independent : forall ms ms' n,
+  Permutation ms ms' ->
+  lookup_name ms n None = lookup_name ms' n None.
+Proof.
+  intros ms ms' n P. rewrite !lookup_name_filter. apply name_result_perm. apply filter_perm. exact P.
+Qed.
+
+(* what the answer is: the module of that name when there is exactly one in the list *)
+Theorem lookup_name_unique : forall ms n m,
+  lookup_name ms n None = LFound m <-> filter (name_match n) ms = [m].
+Proof.
+  intros ms n m. rewrite lookup_name_filter.
+  destruct (filter (name_match n) ms) as [|a [|b t]]; simpl; split; intro H; try discriminate; congruence.
 Qed.
 
 (* 4. both steps: the renaming step does not look at the module list at all *)
 Theorem lookup_full_order_independent : forall imps ms ms' n o,
   oids_distinct ms -> Permutation ms ms' ->
-  (effective_oid imps n o = Some None -> names_distinct ms) ->
   lookup_full imps ms n o = lookup_full imps ms' n o.
 Proof.
-  intros imps ms ms' n o D P Hn. unfold lookup_full.
-  destruct (effective_oid imps n o) as [[x|]|] eqn:E; try reflexivity.
-  - rewrite (lookup_oid_order_independent ms ms' n x D P). reflexivity.
-  - rewrite (lookup_name_order_independent ms ms' n (Hn eq_refl) P). reflexivity.
+  intros imps ms ms' n o D P. unfold lookup_full.
+  destruct (effective_oid imps n o) as [[x|]|] eqn:E; try reflexivity; unfold lookup_c.
+  - rewrite (lookup_oid_order_independent ms ms' x D P). reflexivity.
+  - apply lookup_name_order_independent. exact P.
 Qed.
 
 Lemma accepted_b_sound : forall ms, accepted_b ms = true -> oids_distinct ms.
@@ -196,20 +256,11 @@ Definition ed2 : lmod := {| m_name := 7; m_oid := Some [1;3;6;2]; m_id := 1 |}.
 Theorem lookup_lenient_refuted : exists ms ms' n o,
   accepted_b ms = true /\ oids_distinct ms /\ Permutation ms ms' /\
   lookup_lenient ms n (Some o) <> lookup_lenient ms' n (Some o) /\
-  lookup_c ms n (Some o) = lookup_c ms' n (Some o).
+  lookup_oid ms o = lookup_oid ms' o.
 Proof.
   exists [ed1; ed2], [ed2; ed1], 7, [1;3;6;2].
   split; [reflexivity|]. split; [apply accepted_b_sound; reflexivity|]. split; [apply perm_swap|].
   split; [vm_compute; discriminate | reflexivity].
-Qed.
-
-(* the C itself, asked WITHOUT an OID for a name that two accepted editions share, is order dependent:
-   the hypothesis names_distinct of theorem 3 cannot be dropped (finding C12-import-edition-by-order) *)
-Theorem lookup_name_shared_refuted : exists ms ms' n,
-  accepted_b ms = true /\ Permutation ms ms' /\ lookup_c ms n None <> lookup_c ms' n None.
-Proof.
-  exists [ed1; ed2], [ed2; ed1], 7.
-  split; [reflexivity|]. split; [apply perm_swap|]. vm_compute; discriminate.
 Qed.
 
 Example lookup_example :
@@ -217,5 +268,8 @@ Example lookup_example :
   lookup_full [(7, Some [1;3;6;2])] [ed2; ed1] 7 None = LFound ed2 /\
   lookup_full [(7, Some [1;3;6;9])] [ed1; ed2] 7 None = LNotFound /\
   lookup_full [(7, Some [1;3;6;1]); (7, Some [1;3;6;2])] [ed1; ed2] 7 None = LAmbiguous /\
-  lookup_full [] [ed1; ed2] 7 (Some [1;3;6;2]) = LFound ed2.
+  lookup_full [] [ed1; ed2] 7 (Some [1;3;6;2]) = LFound ed2 /\
+  lookup_full [] [ed1; ed2] 7 None = LAmbiguous /\
+  lookup_full [] [ed2; ed1] 7 None = LAmbiguous /\
+  lookup_full [] [ed1] 7 None = LFound ed1.
 Proof. repeat split. Qed.
